@@ -3432,6 +3432,11 @@ class Viewbox:
                 )
 
 
+def _own(value):
+    """A Length is mutable, what is taken over from another object is held as a copy of it."""
+    return copy(value) if isinstance(value, Length) else value
+
+
 class SVGElement(object):
     """
     Any element within the SVG namespace.
@@ -3467,9 +3472,15 @@ class SVGElement(object):
     def property_by_args(self, *args):
         pass
 
+    def __copy__(self):
+        return self.__class__(self)
+
     def property_by_object(self, obj):
         self.id = obj.id
         self.values = dict(obj.values)
+        if isinstance(self.values.get(SVG_STRUCT_ATTRIB), dict):
+            # The attributes as stated in the document are a dict of their own inside the values.
+            self.values[SVG_STRUCT_ATTRIB] = dict(self.values[SVG_STRUCT_ATTRIB])
 
     def property_by_values(self, values):
         self.id = values.get(SVG_ATTR_ID)
@@ -6618,12 +6629,12 @@ class Rect(Shape):
 
     def property_by_object(self, s):
         Shape.property_by_object(self, s)
-        self.x = s.x
-        self.y = s.y
-        self.width = s.width
-        self.height = s.height
-        self.rx = s.rx
-        self.ry = s.ry
+        self.x = _own(s.x)
+        self.y = _own(s.y)
+        self.width = _own(s.width)
+        self.height = _own(s.height)
+        self.rx = _own(s.rx)
+        self.ry = _own(s.ry)
         self._validate_rect()
 
     def property_by_values(self, values):
@@ -6936,10 +6947,10 @@ class _RoundShape(Shape):
 
     def property_by_object(self, s):
         Shape.property_by_object(self, s)
-        self.cx = s.cx
-        self.cy = s.cy
-        self.rx = s.rx
-        self.ry = s.ry
+        self.cx = _own(s.cx)
+        self.cy = _own(s.cy)
+        self.rx = _own(s.rx)
+        self.ry = _own(s.ry)
 
     def property_by_values(self, values):
         Shape.property_by_values(self, values)
@@ -7063,6 +7074,7 @@ class _RoundShape(Shape):
         rx = self.implicit_rx
         ry = self.implicit_ry
         if self.is_degenerate():
+            self.apply = original
             return ()
         center = self.implicit_center
         path.move((self.point_at_t(0)))
@@ -7340,10 +7352,10 @@ class SimpleLine(Shape):
 
     def property_by_object(self, s):
         Shape.property_by_object(self, s)
-        self.x1 = s.x1
-        self.y1 = s.y1
-        self.x2 = s.x2
-        self.y2 = s.y2
+        self.x1 = _own(s.x1)
+        self.y1 = _own(s.y1)
+        self.x2 = _own(s.x2)
+        self.y2 = _own(s.y2)
 
     def property_by_values(self, values):
         Shape.property_by_values(self, values)
@@ -7985,17 +7997,24 @@ class Use(SVGElement, Transformable, list):
         self.width = None
         self.height = None
         Transformable.__init__(self, *args, **kwargs)
+        if len(args) >= 1:
+            s = args[0]
+            if isinstance(s, Use):
+                self.extend(list(map(copy, s)))
         SVGElement.__init__(
             self, *args, **kwargs
         )  # Must go last, triggers, by_object, by_value, by_arg functions.
 
+    def __copy__(self):
+        return Use(self)
+
     def property_by_object(self, s):
         SVGElement.property_by_object(self, s)
         Transformable.property_by_object(self, s)
-        self.x = s.x
-        self.y = s.y
-        self.width = s.width
-        self.height = s.height
+        self.x = _own(s.x)
+        self.y = _own(s.y)
+        self.width = _own(s.width)
+        self.height = _own(s.height)
 
     def property_by_values(self, values):
         self.x = Length(values.get(SVG_ATTR_X, 0)).value()
@@ -8099,6 +8118,11 @@ class ClipPath(SVGElement, list):
         self.unit_type = SVG_UNIT_TYPE_USERSPACEONUSE
         SVGElement.__init__(self, *args, **kwargs)
 
+    def __copy__(self):
+        c = ClipPath(self)
+        c.extend(map(copy, self))
+        return c
+
     def property_by_object(self, s):
         SVGElement.property_by_object(self, s)
         self.unit_type = s.unit_type
@@ -8124,6 +8148,11 @@ class Pattern(SVGElement, list):
         self.pattern_units = None
         SVGElement.__init__(self, *args, **kwargs)
 
+    def __copy__(self):
+        c = Pattern(self)
+        c.extend(map(copy, self))
+        return c
+
     def __int__(self):
         return 0
 
@@ -8138,12 +8167,12 @@ class Pattern(SVGElement, list):
         self.viewbox = s.viewbox
         self.preserve_aspect_ratio = s.preserve_aspect_ratio
 
-        self.x = s.x
-        self.y = s.y
-        self.width = s.width
-        self.height = s.height
+        self.x = _own(s.x)
+        self.y = _own(s.y)
+        self.width = _own(s.width)
+        self.height = _own(s.height)
         self.href = s.href
-        self.pattern_content_units = s.pattern_contents_units
+        self.pattern_content_units = s.pattern_content_units
         self.pattern_transform = (
             Matrix(s.pattern_transform) if s.pattern_transform is not None else None
         )
@@ -8336,12 +8365,12 @@ class Text(SVGElement, GraphicObject, Transformable):
         GraphicObject.property_by_object(self, s)
         SVGElement.property_by_object(self, s)
         self.text = s.text
-        self.x = s.x
-        self.y = s.y
-        self.width = s.width
-        self.height = s.height
-        self.dx = s.dx
-        self.dy = s.dy
+        self.x = _own(s.x)
+        self.y = _own(s.y)
+        self.width = _own(s.width)
+        self.height = _own(s.height)
+        self.dx = _own(s.dx)
+        self.dy = _own(s.dy)
         self.anchor = s.anchor
         self.font_family = s.font_family
         self.font_style = s.font_style
@@ -8672,13 +8701,13 @@ class Image(SVGElement, GraphicObject, Transformable):
         GraphicObject.property_by_object(self, s)
         self.url = s.url
         self.data = s.data
-        self.viewbox = s.viewbox
+        self.viewbox = Viewbox(s.viewbox) if s.viewbox is not None else None
         self.preserve_aspect_ratio = s.preserve_aspect_ratio
 
-        self.x = s.x
-        self.y = s.y
-        self.width = s.width
-        self.height = s.height
+        self.x = _own(s.x)
+        self.y = _own(s.y)
+        self.width = _own(s.width)
+        self.height = _own(s.height)
 
         self.image = s.image
         self.image_width = s.image_width
@@ -8913,6 +8942,9 @@ class SVG(Group):
         self.viewbox = None
         Group.__init__(self, *args, **kwargs)
 
+    def __copy__(self):
+        return SVG(self)
+
     @property
     def implicit_position(self):
         if not self.apply:
@@ -8955,10 +8987,10 @@ class SVG(Group):
 
     def property_by_object(self, s):
         Group.property_by_object(self, s)
-        self.x = s.x
-        self.y = s.y
-        self.width = s.width
-        self.height = s.height
+        self.x = _own(s.x)
+        self.y = _own(s.y)
+        self.width = _own(s.width)
+        self.height = _own(s.height)
         self.viewbox = Viewbox(s.viewbox) if s.viewbox is not None else None
 
     def property_by_values(self, values):
